@@ -74,7 +74,18 @@ func c10History(c *rt.Ctx, fsType string, h int) {
 		e.CloseAll()
 		er.CloseAll()
 	}
-	bp, err := basepathfs.NewWithErr(base, B)
+	// the base directory is given to the constructor under several spellings of the same directory: clean, with a
+	// trailing separator, unclean, relative to the current directory of the base (which is "/" at that moment)
+	spell := B
+	switch r.IntN(5) {
+	case 0:
+		spell = B + "/"
+	case 1:
+		spell = "/." + B + "/../" + base.Base(B)
+	case 2:
+		spell = strings.TrimPrefix(B, "/")
+	}
+	bp, err := basepathfs.NewWithErr(base, spell)
 	if err != nil {
 		c.Rep.Inconclusive = append(c.Rep.Inconclusive, "cannot build BasePathFS: "+err.Error())
 		return
@@ -105,7 +116,7 @@ func c10History(c *rt.Ctx, fsType string, h int) {
 	env, renv := fsx.NewEnv(bp), fsx.NewEnv(ref)
 	var hist []string
 	replay := func() any {
-		return map[string]any{"fs": fsType, "base_dir": B, "tree_seed": []uint64{sa, sb}, "history": hist}
+		return map[string]any{"fs": fsType, "base_dir": B, "base_dir_as_given": spell, "tree_seed": []uint64{sa, sb}, "history": hist}
 	}
 	hostile := []string{"/..", "/../" + c10Canary, "/../../" + c10Canary, "../" + c10Canary, "../../" + c10Canary, "../../../../" + c10Canary, "/w/../../" + c10Canary, "/../tmp/" + c10Canary,
 		B, B + "/w", "/.." + B, "..", "../..", "/../outside", "../outside/" + c10Canary + "-dir", "/w/a/../../../" + c10Canary, "." + B}
@@ -292,7 +303,7 @@ func init() {
 		Shards: shards(8, 16),
 		Meta: func(tier string) rt.Meta {
 			return rt.Meta{Level: "exploration", MinEvals: 2000, MinDistinct: 20,
-				Rule:        "bases MemFS/OrefaFS with a base directory B (/BASE, /BASE/sub, /x/BASE) holding a random tree, canary files and directories outside B (among them a sibling directory whose name extends B's as a string and holds the workload's names; the current directory of the base is moved there and elsewhere outside B from the base side); histories of 100 calls (all path-taking calls and File methods; absolute, relative, unclean paths; one call in four gets an adversarial operand: '..'-chains, B's own prefix, canary names) plus Sub through the wrapper with hostile directories and probes through the returned view) issued in lockstep on BasePathFS(base,B) and on a standalone file system holding B's content. Monitors: snapshot (incl. mtimes) of everything outside B before/after every call; canary/base-path search in every returned value and error text; outcome, content of B and cwd equal to the standalone reference. Signature = base fs | call kind | outcome; all non-trivial.",
+				Rule:        "bases MemFS/OrefaFS with a base directory B (/BASE, /BASE/sub, /x/BASE, given to the constructor clean, with a trailing separator, unclean or relative) holding a random tree, canary files and directories outside B (among them a sibling directory whose name extends B's as a string and holds the workload's names; the current directory of the base is moved there and elsewhere outside B from the base side); histories of 100 calls (all path-taking calls and File methods; absolute, relative, unclean paths; one call in four gets an adversarial operand: '..'-chains, B's own prefix, canary names) plus Sub through the wrapper with hostile directories and probes through the returned view) issued in lockstep on BasePathFS(base,B) and on a standalone file system holding B's content. Monitors: snapshot (incl. mtimes) of everything outside B before/after every call; canary/base-path search in every returned value and error text; outcome, content of B and cwd equal to the standalone reference. Signature = base fs | call kind | outcome; all non-trivial.",
 				Assumptions: []string{"B's content is symlink-free (BasePathFS removes FeatSymlink)", "File.Name and Abs are checked for leaks only", "the root as operand of Remove/RemoveAll/Rename is left to C07"}}
 		},
 		Run: func(c *rt.Ctx) {
